@@ -186,6 +186,7 @@ struct TPCls { static Truthy of(bool b) { return Truthy{b ? g_tv : 0}; } };
 template <typename TP>
 static bool run_case_inner(std::string const& op_in, Toks& in, Out& impl, Out& ref);
 static bool run_case_mv(std::string op, Toks& in, Out& impl, Out& ref);
+static bool run_case_sw(std::string op, Toks& in, Out& impl, Out& ref);
 bool vh::run_case(std::string const& op_in, Toks& in, Out& impl, Out& ref)
 {
     g_oob = false;
@@ -194,7 +195,10 @@ bool vh::run_case(std::string const& op_in, Toks& in, Out& impl, Out& ref)
     auto n = op.size();
     if (n > 3 && op[n - 3] == '_' && op[n - 2] == 't' && op[n - 1] >= '1' && op[n - 1] <= '4') { tk = op[n - 1] - '0'; op.resize(n - 3); }
     bool r;
-    if (op.find("_mv") != std::string::npos) { r = tk == 0 && run_case_mv(op, in, impl, ref); }
+    std::string swop = op;
+    bool swfull = strip_suffix(swop, "_full");
+    if (tk == 0 && strip_suffix(swop, "_sw")) { r = run_case_sw(swop + (swfull ? "_full" : ""), in, impl, ref); }
+    else if (op.find("_mv") != std::string::npos) { r = tk == 0 && run_case_mv(op, in, impl, ref); }
     else if (tk == 0) { r = run_case_inner<TPBool>(op, in, impl, ref); }
     else if (tk == 4) { g_tv = 2; r = run_case_inner<TPCls>(op, in, impl, ref); }
     else { g_tv = tk == 1 ? 2 : (tk == 2 ? -1 : 4096); r = run_case_inner<TPInt>(op, in, impl, ref); }
@@ -887,6 +891,235 @@ static void mv_tail(Out& o, MBuf const& a, bool count)
     if (count) { o.tok("A").num(g_massign); }
     if (g_selfmove != 0) { o.tok("SELF-MOVE").num(g_selfmove); }
     if (g_copies != 0) { o.tok("COPIED").num(g_copies); }
+}
+
+// ---- element type with its OWN swap (found by argument-dependent lookup): op suffix "_sw" -------------------------------
+// A slot of a fixed table: `id` belongs to the position, only the payload `v` travels when two slots are swapped
+// (app::swap exchanges the payloads and counts its calls); move construction / assignment carry both members.  Where the
+// standard says an algorithm "swaps" (iter_swap, swap_ranges, reverse - with the exact number of swaps) or requires only
+// ValueSwappable (partition), the element type's swap must be the one used: unqualified call after `using etl::swap`.
+// Tokens: `S k` = k calls of app::swap (where the number is specified), IDS-MOVED = some id left its position (the
+// algorithm moved a whole element instead of swapping; shown for the algorithms that are specified / implemented by swaps
+// only), COPIED k = k element copies.
+namespace app {
+static long g_uswaps = 0;
+static long g_scopies = 0;
+struct Slot {
+    int id{0};
+    int v{0};
+    Slot() = default;
+    Slot(int i, int x) : id{i}, v{x} { }
+    Slot(Slot const& o) : id{o.id}, v{o.v} { ++g_scopies; }
+    auto operator=(Slot const& o) -> Slot& { ++g_scopies; id = o.id; v = o.v; return *this; }
+    Slot(Slot&& o) noexcept : id{o.id}, v{o.v} { }
+    auto operator=(Slot&& o) noexcept -> Slot& { id = o.id; v = o.v; return *this; }
+    friend bool operator==(Slot const& a, Slot const& b) { return a.v == b.v; }
+    friend bool operator<(Slot const& a, Slot const& b) { return a.v < b.v; }
+};
+inline void swap(Slot& a, Slot& b) noexcept
+{
+    ++g_uswaps;
+    int const t = a.v;
+    a.v = b.v;
+    b.v = t;
+}
+} // namespace app
+using app::Slot;
+struct SBuf {
+    std::vector<Slot> st;
+    std::size_t n;
+    explicit SBuf(V const& v) : st(v.size() + 2), n(v.size())
+    {
+        for (std::size_t i = 0; i < st.size(); ++i) { st[i].id = static_cast<int>(i); }
+        st.front().v = GUARD;
+        st.back().v  = GUARD;
+        for (std::size_t i = 0; i < n; ++i) { st[i + 1].v = v[i]; }
+        app::g_uswaps  = 0;
+        app::g_scopies = 0;
+    }
+    Slot* b() { return st.data() + 1; }
+    Slot* e() { return st.data() + 1 + n; }
+    bool guards_ok() const { return st.front().v == GUARD && st.back().v == GUARD; }
+    bool ids_ok() const
+    {
+        for (std::size_t i = 0; i < st.size(); ++i) { if (st[i].id != static_cast<int>(i)) { return false; } }
+        return true;
+    }
+    V vec() const
+    {
+        V r(n);
+        for (std::size_t i = 0; i < n; ++i) { r[i] = st[i + 1].v; }
+        return r;
+    }
+};
+// count: the number of swaps is specified; ids: the ids must have stayed in place
+static void sw_tail(Out& o, SBuf const& a, bool count, bool ids, long swaps)
+{
+    if (!a.guards_ok()) { o.tok("GUARD-HIT"); }
+    if (count) { o.tok("S").num(swaps); }
+    if (ids && !a.ids_ok()) { o.tok("IDS-MOVED"); }
+    if (app::g_scopies != 0) { o.tok("COPIED").num(app::g_scopies); }
+}
+
+static bool run_case_sw(std::string op, Toks& in, Out& impl, Out& ref)
+{
+    bool full = strip_suffix(op, "_full");
+    if (op == "iter_swap") {
+        auto i = in.num(); auto j = in.num();
+        V v = tov(in.list());
+        SBuf a(v);
+        guarded(impl, [&](Out& o) {
+            etl::iter_swap(a.b() + i, a.b() + j);
+            long k = app::g_uswaps;
+            o.tok("ok"); put(o, a.vec()); sw_tail(o, a, true, true, k);
+        });
+        SBuf s(v);
+        std::iter_swap(s.b() + i, s.b() + j);
+        long k = app::g_uswaps;
+        ref.tok("ok"); put(ref, s.vec()); sw_tail(ref, s, true, true, k);
+        return true;
+    }
+    if (op == "rotate" || op == "rotate_fwd") {
+        auto f = in.num(); auto m = in.num(); auto n = in.num();
+        V v = tov(in.list());
+        SBuf a(v);
+        guarded(impl, [&](Out& o) {
+            std::ptrdiff_t r;
+            if (op == "rotate") { r = etl::rotate(a.b() + f, a.b() + m, a.b() + n) - a.b(); }
+            else { r = etl::rotate(FwdIt<Slot>(a.b() + f), FwdIt<Slot>(a.b() + m), FwdIt<Slot>(a.b() + n)).p - a.b(); }
+            o.tok("ok").num(r); put(o, a.vec()); sw_tail(o, a, false, true, 0);
+        });
+        SBuf s(v);
+        auto r = std::rotate(s.b() + f, s.b() + m, s.b() + n) - s.b();
+        ref.tok("ok").num(r); put(ref, s.vec());
+        return true;
+    }
+    if (op == "reverse_ra" || op == "reverse_bidi" || op == "reverse_rev") {
+        auto f = in.num(); auto n = in.num();
+        V v = tov(in.list());
+        SBuf a(v);
+        guarded(impl, [&](Out& o) {
+            if (op == "reverse_ra") { etl::reverse(a.b() + f, a.b() + n); }
+            else if (op == "reverse_rev") { etl::reverse(etl::reverse_iterator<Slot*>(a.b() + n), etl::reverse_iterator<Slot*>(a.b() + f)); }
+            else { etl::reverse(BidiIt<Slot>(a.b() + f), BidiIt<Slot>(a.b() + n)); }
+            long k = app::g_uswaps;
+            o.tok("ok"); put(o, a.vec()); sw_tail(o, a, true, true, k);
+        });
+        SBuf s(v);
+        std::reverse(s.b() + f, s.b() + n);
+        long k = app::g_uswaps;
+        ref.tok("ok"); put(ref, s.vec()); sw_tail(ref, s, true, true, k);
+        return true;
+    }
+    if (op == "swap_ranges" || op == "swap_ranges_fwd") {
+        V v1 = tov(in.list()); V v2 = tov(in.list());
+        SBuf a(v1); SBuf b(v2);
+        app::g_uswaps = 0;
+        guarded(impl, [&](Out& o) {
+            std::ptrdiff_t r;
+            if (op == "swap_ranges") { r = etl::swap_ranges(a.b(), a.e(), b.b()) - b.b(); }
+            else { r = etl::swap_ranges(FwdIt<Slot>(a.b()), FwdIt<Slot>(a.e()), FwdIt<Slot>(b.b())).p - b.b(); }
+            long k = app::g_uswaps;
+            o.tok("ok").num(r); put(o, a.vec()); put(o, b.vec());
+            if (!b.guards_ok()) { o.tok("GUARD-HIT"); }
+            if (!b.ids_ok()) { o.tok("IDS-MOVED"); }
+            sw_tail(o, a, true, true, k);
+        });
+        SBuf s1(v1); SBuf s2(v2);
+        app::g_uswaps = 0;
+        auto r = std::swap_ranges(s1.b(), s1.e(), s2.b()) - s2.b();
+        long k = app::g_uswaps;
+        ref.tok("ok").num(r); put(ref, s1.vec()); put(ref, s2.vec());
+        if (!s2.ids_ok()) { ref.tok("IDS-MOVED"); }
+        sw_tail(ref, s1, true, true, k);
+        return true;
+    }
+    if (op == "swap_array") {
+        // _utility/swap.hpp, the overload for built-in arrays: [utility.swap] "As if by swap_ranges(a, a + N, b)" - N element swaps
+        V v1 = tov(in.list()); V v2 = tov(in.list());
+        auto run = [&](Out& o, bool etl_) {
+            Slot a[3] = {{0, v1[0]}, {1, v1[1]}, {2, v1[2]}}; Slot b[3] = {{0, v2[0]}, {1, v2[1]}, {2, v2[2]}};
+            app::g_uswaps = 0; app::g_scopies = 0;
+            if (etl_) { etl::swap(a, b); } else { std::swap(a, b); }
+            long k = app::g_uswaps;
+            o.tok("ok").num(3);
+            o.num(3); for (auto const& x : a) { o.num(x.v); }
+            o.num(3); for (auto const& x : b) { o.num(x.v); }
+            bool idb = b[0].id == 0 && b[1].id == 1 && b[2].id == 2;
+            bool ida = a[0].id == 0 && a[1].id == 1 && a[2].id == 2;
+            if (!idb) { o.tok("IDS-MOVED"); }
+            o.tok("S").num(k);
+            if (!ida) { o.tok("IDS-MOVED"); }
+            if (app::g_scopies != 0) { o.tok("COPIED").num(app::g_scopies); }
+        };
+        guarded(impl, [&](Out& o) { run(o, true); });
+        run(ref, false);
+        return true;
+    }
+    if (op == "partition" || op == "partition_fwd" || op == "stable_partition") {
+        auto id = static_cast<int>(in.num());
+        V v = tov(in.list());
+        SBuf a(v);
+        auto p  = [&](Slot const& x) { return pred_of(id, x.v); };
+        auto pi = [&](int x) { return pred_of(id, x); };
+        bool st = op == "stable_partition";
+        guarded(impl, [&](Out& o) {
+            std::ptrdiff_t r;
+            if (st) { r = etl::stable_partition(a.b(), a.e(), p) - a.b(); }
+            else if (op == "partition_fwd") { r = etl::partition(FwdIt<Slot>(a.b()), FwdIt<Slot>(a.e()), p).p - a.b(); }
+            else { r = etl::partition(a.b(), a.e(), p) - a.b(); }
+            V res = a.vec();
+            o.tok("ok").num(r);
+            if (full || st) { put(o, res); }
+            else { o.b(std::all_of(res.begin(), res.begin() + r, pi) && std::none_of(res.begin() + r, res.end(), pi)).b(is_perm(res, v)); }
+            sw_tail(o, a, false, true, 0);
+        });
+        if (!full || st) {
+            SBuf s(v);
+            auto r = (st ? std::stable_partition(s.b(), s.e(), p) : std::partition(s.b(), s.e(), p)) - s.b();
+            V res = s.vec();
+            ref.tok("ok").num(r);
+            if (st) { put(ref, res); }
+            else {
+                ref.b(std::all_of(res.begin(), res.begin() + r, pi) && std::none_of(res.begin() + r, res.end(), pi)).b(is_perm(res, v));
+                sw_tail(ref, s, false, true, 0);   // [alg.partitions]: partition requires ValueSwappable only - it can only swap
+            }
+        }
+        return true;
+    }
+    {
+        // the sorts that etl implements by swaps only (gnome_sort = sort = nth_element = partial_sort, bubble_sort, exchange_sort)
+        static char const* sorts[] = {"sort", "gnome_sort", "bubble_sort", "exchange_sort", "nth_element", "partial_sort"};
+        for (auto* name : sorts) {
+            std::string nm = name;
+            if (op != nm) { continue; }
+            auto id = static_cast<int>(in.num());
+            i64 k = 0;
+            if (nm == "nth_element" || nm == "partial_sort") { k = in.num(); }
+            V v = tov(in.list());
+            SBuf a(v);
+            auto c  = [&](Slot const& x, Slot const& y) { return cmp_of(id, x.v, y.v); };
+            auto ci = [&](int x, int y) { return cmp_of(id, x, y); };
+            bool dflt = id == 3;
+            guarded(impl, [&](Out& o) {
+                auto b = a.b(); auto e = a.e();
+                if (nm == "gnome_sort") { if (dflt) { etl::gnome_sort(b, e); } else { etl::gnome_sort(b, e, c); } }
+                else if (nm == "sort") { if (dflt) { etl::sort(b, e); } else { etl::sort(b, e, c); } }
+                else if (nm == "bubble_sort") { if (dflt) { etl::bubble_sort(b, e); } else { etl::bubble_sort(b, e, c); } }
+                else if (nm == "exchange_sort") { if (dflt) { etl::exchange_sort(b, e); } else { etl::exchange_sort(b, e, c); } }
+                else if (nm == "nth_element") { if (dflt) { etl::nth_element(b, b + k, e); } else { etl::nth_element(b, b + k, e, c); } }
+                else { if (dflt) { etl::partial_sort(b, b + k, e); } else { etl::partial_sort(b, b + k, e, c); } }
+                V r = a.vec();
+                o.tok("ok");
+                if (full) { put(o, r); }
+                else { o.b(std::is_sorted(r.begin(), r.end(), ci)).b(is_perm(r, v)); }
+                sw_tail(o, a, false, true, 0);
+            });
+            if (!full) { ref.tok("ok").b(true).b(true); }
+            return true;
+        }
+    }
+    return false;
 }
 
 static bool run_case_mv(std::string op, Toks& in, Out& impl, Out& ref)
